@@ -29,10 +29,10 @@ from loguru import logger
 from tawazi import consts
 from tawazi._helpers import StrictDict, UniqueKeyLoader
 from tawazi.config import cfg
-from tawazi.consts import ARG_NAME_ACTIVATE, RVDAG, Identifier, P, Tag
+from tawazi.consts import ARG_NAME_ACTIVATE, RETURN_NAME_SEP, RVDAG, Identifier, P, Tag
 from tawazi.errors import TawaziTypeError, TawaziUsageError
 from tawazi.node import Alias, ArgExecNode, ExecNode, ReturnUXNsType, UsageExecNode, node
-from tawazi.node.node import LazyExecNode, make_active, make_axn_id
+from tawazi.node.node import LazyExecNode, ReturnExecNode, make_active, make_axn_id
 from tawazi.profile import Profile
 
 from .digraph import DiGraphEx
@@ -752,6 +752,12 @@ class DAG(BaseDAG[P, RVDAG]):
                     logger.debug(
                         "Skipping ExecNode {} because the input is already registered", new_id
                     )
+                    continue
+
+                # constants returned by the SubDAG are held by ReturnExecNodes which have their own constructor
+                if isinstance(exec_node, ReturnExecNode):
+                    func_name, suffix = id_.split(RETURN_NAME_SEP)
+                    node.exec_nodes[new_id] = ReturnExecNode(to_subdag_id(func_name), suffix)
                     continue
 
                 values = asdict(exec_node)
